@@ -46,11 +46,9 @@ for f in r['findings']:
     if f['rule']:
         byrule[(f['property'], f['clause'], f['rule'])].add(f['config'].split(' ')[0].rstrip('0123456789'))
     else:
-        fam = f['config'].split(' ')[0]
-        for pre in ('sweep', 'variant', 'nspaces', 'affix', 'sched'):
-            if fam.startswith(pre):
-                fam = pre
-        byinput[(f['property'], f['clause'])][fam].add(f['input'].split('#')[0])
+        # the same defect of an input shows under every configuration family the input is run with: entries are per
+        # (clause, input), not per family (a new family - another option sweep, another schedule - is not a new finding)
+        byinput[(f['property'], f['clause'])]["any"].add(f['input'].split('#')[0])
 known = [e for e in old['known'] if e.get('source') == 'manual']      # entries of the other families are written by hand
 for k in sorted(byrule):
     prop, clause, rule = k
@@ -59,11 +57,7 @@ for k in sorted(byrule):
 for k in sorted(byinput):
     prop, clause = k
     for fam, inputs in sorted(byinput[k].items()):
-        e = {"property": prop, "clause": clause, "rule": "", "what": WHAT.get(clause, clause) + " (inputs listed; configuration family: %s)" % fam, "input": sorted(inputs)}
-        e["config_contains"] = fam if fam in ("sweep", "variant", "nspaces", "affix", "sched") else None
-        if e["config_contains"] is None:
-            del e["config_contains"]
-            e["config"] = fam
+        e = {"property": prop, "clause": clause, "rule": "", "what": WHAT.get(clause, clause) + " (inputs listed; the same defect of the input shows under every configuration family it was run with)", "input": sorted(inputs)}
         known.append(e)
 old['known'] = known
 json.dump(old, open('/verif/known_findings.json', 'w'), indent=1)
